@@ -584,7 +584,16 @@ pub fn random_rule(rng: &mut Rng, id: &str, absolute: bool) -> RuleSpec {
         r.host = Some(Template::lit(*rng.pick(&["example.org", "other.net"])));
     }
     if rng.chance(1, 4) {
-        r.methods = Some(vec![rng.pick(&["GET", "POST"]).to_string()]);
+        // one method, or several (the rule then sits in one bucket per method)
+        r.methods = Some(match rng.below(3) {
+            0 => vec!["GET".to_string(), "POST".to_string()],
+            1 => vec!["POST".to_string(), "PUT".to_string(), "GET".to_string()],
+            _ => vec![rng.pick(&["GET", "POST"]).to_string()],
+        });
+    }
+    if rng.chance(1, 10) {
+        // several ip ranges that contain the example addresses
+        r.ips = Some(vec![IpSpec::In("10.0.0.0/8".into()), IpSpec::In("10.1.0.0/16".into())]);
     }
     if rng.chance(1, 6) {
         r.headers = vec![HeaderCond { name: "X-A".into(), kind: "is_defined".into(), value: None }];
